@@ -77,7 +77,7 @@ void judge(const sim::Json& sc, const RunRecord& rec, sim::RunResult& r) {
     if (all_valid && delivered) {
       // ---- index the records
       std::set<long> nlvars, vars, nlobjs, objs;
-      std::set<long> nlcons;
+      std::set<long> nlcons, nlcommons;
       std::map<std::string, Created> created;          // CON_TYPE -> creation info
       std::map<std::string, std::map<long, std::vector<sim::Json>>> status;   // CON_TYPE -> index -> status records
       std::vector<sim::Json> links;
@@ -86,6 +86,7 @@ void judge(const sim::Json& sc, const RunRecord& rec, sim::RunResult& r) {
         else if (j.has("NL_OBJECTIVE_index")) nlobjs.insert(j["NL_OBJECTIVE_index"].as_int());
         else if (j.has("OBJECTIVE_index")) objs.insert(j["OBJECTIVE_index"].as_int());
         else if (j.has("NL_CON_TYPE")) nlcons.insert(j["index"].as_int());
+        else if (j.has("NL_COMMON_EXPR_index")) nlcommons.insert(j["NL_COMMON_EXPR_index"].as_int());
         else if (j.has("CON_TYPE")) {
           std::string t = j["CON_TYPE"].as_str(); long i = j["index"].as_int();
           if (j.has("final")) status[t][i].push_back(j);
@@ -103,6 +104,8 @@ void judge(const sim::Json& sc, const RunRecord& rec, sim::RunResult& r) {
       for (long j = 0; j < n; ++j) if (!nlvars.count(j)) flag("MISSING_NL_ITEM", "var", "NL variable " + std::to_string(j) + " has no record marked is_from_nl");
       for (long i = 0; i < m + nl; ++i) if (!nlcons.count(i)) flag("MISSING_NL_ITEM", "con", "NL constraint " + std::to_string(i) + " has no NL_CON_TYPE record");
       if (no > 0 && nlobjs.empty()) flag("MISSING_NL_ITEM", "obj", "no NL_OBJECTIVE record although the file has objectives");
+      // defined variables (common expressions) are items of the NL model too, whether or not anything refers to them
+      for (long i = 0; i < sc["expect"]["ncommons"].as_int(0); ++i) if (!nlcommons.count(i)) flag("MISSING_NL_ITEM", "defvar", "defined variable " + std::to_string(i) + " of the NL file has no NL_COMMON_EXPR record");
       for (size_t j = 0; j < sm.vars.size(); ++j) if (!vars.count((long)j)) flag("MISSING_DELIVERED_ITEM", "var", "delivered variable " + std::to_string(j) + " has no VAR_index record");
       if (vars.size() != sm.vars.size()) flag("VAR_COUNT_MISMATCH", cfg, std::to_string(vars.size()) + " variables in the graph file, " + std::to_string(sm.vars.size()) + " delivered");
       for (auto& o : sm.objs) if (!objs.count(o.iobj)) flag("MISSING_DELIVERED_ITEM", "obj", "delivered objective " + std::to_string(o.iobj) + " has no OBJECTIVE_index record");
